@@ -344,8 +344,9 @@ async def run_program(prog: dict[str, Any], out: dict[str, Any], pace_timeout: f
 
         chans3 = [[Broadcast(name=f"c{i}p{p}") for p in range(3)] for i in range(n)]
         senders3 = [[c.new_sender() for c in row] for row in chans3]
-        leafs = [FormulaEngine3Phase(f"e{i}", Quantity, tuple(
-            FormulaEngine.from_receiver(f"e{i}p{p}", chans3[i][p].new_receiver(limit=200), Quantity) for p in range(3)))
+        names = prog.get("leaf_names") or [f"e{i}" for i in range(n)]
+        leafs = [FormulaEngine3Phase(names[i], Quantity, tuple(
+            FormulaEngine.from_receiver(f"{names[i]}p{p}", chans3[i][p].new_receiver(limit=200), Quantity) for p in range(3)))
             for i in range(n)]
         eng = build_api(prog["ast"], leafs).build("f", nones_are_zeros=naz)
         out["formula_str"] = "3-phase " + str(prog["ast"])
@@ -388,7 +389,8 @@ async def run_program(prog: dict[str, Any], out: dict[str, Any], pace_timeout: f
             push_ast(fb, prog["ast"], lambda i: chans[i].new_receiver(limit=200), leaf_naz)
             eng = fb.build()
         else:
-            engines = [FormulaEngine.from_receiver(f"e{i}", chans[i].new_receiver(limit=200), Quantity,
+            names = prog.get("leaf_names") or [f"e{i}" for i in range(n)]
+            engines = [FormulaEngine.from_receiver(names[i], chans[i].new_receiver(limit=200), Quantity,
                                                    nones_are_zeros=leaf_naz[i]) for i in range(n)]
             eng = build_api(prog["ast"], engines).build("f", nones_are_zeros=naz)
     out["formula_str"] = str(eng)
